@@ -89,9 +89,10 @@ class Sampling(Monitor):
         for unit in walk_units(args[0]):
             rec = unit_record(unit)
             ident = rec[0]
-            if ctx.G.get(ident) != rec[1:]:
-                ctx.violation("C17", "written_state_is_not_the_global_state",
-                              {"identifier": ident, "written": rec[1:], "global": ctx.G.get(ident)})
+            if ctx.S.get(ident) != rec[1:]:
+                # ctx.S is built from the committed out-states only (not read back through the state handler)
+                ctx.violation("C17", "written_state_is_not_the_committed_state",
+                              {"identifier": ident, "written": rec[1:], "committed": ctx.S.get(ident)})
             if rec[2] is not None:
                 moving += 1
                 if rec[3] != now:
@@ -103,6 +104,9 @@ class Sampling(Monitor):
                     if periodic_diff(expected[d], rec[1][d], length) > POS_TOL * length:
                         ctx.violation("C17", "written_position_not_on_trajectory",
                                       {"identifier": ident, "expected": expected, "written": rec[1]})
+        if len(list(walk_units(args[0]))) != len(ctx.S):
+            ctx.violation("C17", "written_state_incomplete", {"written": len(list(walk_units(args[0]))),
+                                                              "units": len(ctx.S)})
         if moving == 0 and ctx.step > 1:
             ctx.violation("C17", "written_state_has_no_moving_unit", {})
         self.samples_checked += 1
